@@ -392,7 +392,8 @@ CLAIMED["C03"] = dict(
         "every volume load, truncates the index file only to a non-negative multiple of the entry size that is not larger than the file (guard at every Truncate), "
         "and fails only for a reason other than a torn last entry - the size cannot be read, a truncation fails, or one of the last records does not check out "
         "against the data file; verifyIndexFileIntegrity succeeds exactly for a readable size that is a multiple of the entry size. So an index file that kept any "
-        "prefix of an interrupted 16/17-byte append does not by itself fail the load.",
+        "prefix of an interrupted 16/17-byte append does not by itself fail the load. verifyNeedleIntegrity cuts the data file only behind the record an index entry "
+        "names (offset plus padded on-disk size, and only if the file is longer): never into or before an indexed record.",
    note="The crash-point quantification itself (every prefix of both files, every interleaving of the two appends) is outside a per-function contract: decided is "
         "the index-side tolerance only. Assumed: util.GetFileSize and os.File.Truncate over the ghost file; doCheckAndFixVolumeData (the per-record check against "
         "the data file, which also cuts an orphan record off the data file) is trusted here. Not decided: that every fully written blob reads back (C01/C02/C05 "
